@@ -518,3 +518,144 @@ Definition bad_schema : list decl :=
 Lemma unsupported_reachable :
   enc ops_now bad_schema type_fuel "Ho" (VStruct "Ho" [("ws", VArr [VInt 1; VInt 2])]) = Crash "Unsupported" /\ wf_schema bad_schema = false.
 Proof. split; vm_compute; reflexivity. Qed.
+
+(* ---------- deserialize and factory-deserialize of a well-formed schema never answer "Unsupported" ---------- *)
+Section DecodeLoop.
+Variable OP : ops.
+Variable tm : list decl.
+Variable R : rec_ops.
+Hypothesis HR : R_des_ok R.
+Variable s : struct.
+Variable allfs : list field.
+Let ok := des_static_ok tm allfs.
+
+Lemma nu_drain_queue fs : forallb ok fs = true -> forall e tbuf, nu (drain_queue OP tm R s allfs e fs tbuf).
+Proof.
+  induction fs as [|f r IH]; cbn [drain_queue forallb]; [intros; apply nu_ok|].
+  intros H e tbuf. apply Bool.andb_true_iff in H as [Hf Hr].
+  apply nu_bind; [apply nu_deserialize_field; assumption|]. intros x _. apply IH. exact Hr.
+Qed.
+
+Definition queue_ok (queued : list (string * list field)) : Prop := Forall (fun q => forallb ok (snd q) = true) queued.
+
+Lemma forallb_app_true {A} (p : A -> bool) l1 l2 : forallb p l1 = true -> forallb p l2 = true -> forallb p (l1 ++ l2) = true.
+Proof. intros H1 H2. rewrite forallb_app, H1, H2. reflexivity. Qed.
+
+Lemma nu_deserialize_loop fs : forallb ok fs = true ->
+  forall processed queued temps e buf, queue_ok queued -> nu (deserialize_loop OP tm R s allfs fs processed queued temps e buf).
+Proof.
+  induction fs as [|f r IH]; cbn [deserialize_loop forallb]; [intros; apply nu_ok|].
+  intros H processed queued temps e buf Hq. apply Bool.andb_true_iff in H as [Hf Hr].
+  match goal with |- nu (match ?w with Some _ => _ | None => _ end) => destruct w as [cn|] end.
+  - destruct (find (fun q : string * list field => String.eqb (fst q) cn) queued) as [q0|].
+    + apply IH; [exact Hr|]. unfold queue_ok in *. rewrite Forall_forall in *. intros q Hin.
+      apply in_map_iff in Hin as [q' [<- Hin']]. destruct (String.eqb (fst q') cn); cbn [snd].
+      * apply forallb_app_true; [exact (Hq _ Hin')|cbn [forallb]; fold ok; rewrite Hf; reflexivity].
+      * exact (Hq _ Hin').
+    + destruct (f_type f) as [i|t|a]; try nu_crash.
+      apply nu_bind; [apply HR|]. intros tv _. apply nu_bind; [apply HR|]. intros sz _.
+      apply IH; [exact Hr|]. unfold queue_ok. apply Forall_app. split; [exact Hq|].
+      constructor; [|constructor]. cbn [snd forallb]. fold ok. rewrite Hf. reflexivity.
+  - apply nu_bind; [apply nu_deserialize_field; assumption|]. intros x _.
+    apply nu_bind.
+    + apply nu_drain_queue.
+      destruct (find (fun q : string * list field => String.eqb (fst q) (f_name f)) queued) as [q0|] eqn:Hfind; [|reflexivity].
+      unfold queue_ok in Hq. rewrite Forall_forall in Hq. exact (Hq _ (proj1 (find_some _ _ Hfind))).
+    + intros e2 _. apply IH; assumption.
+Qed.
+End DecodeLoop.
+
+Section Decode.
+Variable OP : ops.
+Variable tm : list decl.
+Hypothesis Hwf : wf_schema tm = true.
+Hypothesis Hkey : forall fuel t v, nu (key OP tm fuel t v).
+
+Definition Rd (k : nat) : rec_ops :=
+  {| enc_t := enc OP tm k; size_t := size OP tm k; dec_t := dec OP tm k; decf_t := decf OP tm k; key_t := key OP tm k |}.
+
+Lemma dec_header_S k b allfs buf : dec_header OP tm (S k) b allfs buf =
+  let bfs := struct_fields_nc b in
+  let has_size := existsb (fun f => String.eqb (f_name f) "size") bfs in
+  bind (deserialize_loop OP tm (Rd k) b allfs bfs [] [] [] [] buf) (fun r =>
+  let size_ := if has_size then match eget (fst r) "size" with Some (VInt z) => z | _ => 0 end else Z.of_nat (length buf) in
+  Ok (fst r, size_ - Z.of_nat (length (snd r)), size_)).
+Proof. reflexivity. Qed.
+
+Lemma dec_S k t buf : dec OP tm (S k) t buf =
+  match lookup tm t with
+  | Some (DAlias _ (LInt i) _) =>
+    let x := py_from_bytes (Z.to_nat (it_size i)) (negb (it_unsigned i)) buf in
+    if base_value_bad OP (it_size i) false x then Reject else Ok (VInt x)
+  | Some (DAlias _ (LBuffer n) _) => bind (get_bytes OP buf n) (fun b => Ok (VBytes b))
+  | Some (DEnum _ b vs at_ _) =>
+    let x := py_from_bytes (Z.to_nat (it_size b)) (negb (it_unsigned b)) buf in
+    if enum_valid vs (is_bitwise at_) x then Ok (VInt x) else Reject
+  | Some (DStruct s) =>
+    match s_disp s with
+    | SdAbstract => Crash "AttributeError"
+    | _ =>
+      let allfs := struct_fields_nc s in
+      match base_struct tm s with
+      | Some b =>
+        bind (dec_header OP tm k b allfs buf) (fun h =>
+        let '(e0, ws, we) := h in
+        let wbuf := zskipn ws (zfirstn we buf) in
+        bind (deserialize_loop OP tm (Rd k) s allfs (own_fields tm s) [] [] [] e0 wbuf) (fun r =>
+        Ok (VStruct (s_name s) (collect s (fst r)))))
+      | None =>
+        bind (deserialize_loop OP tm (Rd k) s allfs (own_fields tm s) [] [] [] [] buf) (fun r =>
+        Ok (VStruct (s_name s) (collect s (fst r))))
+      end
+    end
+  | None => Crash "NameError"
+  end.
+Proof. reflexivity. Qed.
+
+Definition dec_goal (k : nat) : Prop :=
+  (forall t b, nu (dec OP tm k t b)) /\ (forall t b, nu (decf OP tm k t b))
+  /\ (forall b allfs buf, forallb (des_static_ok tm allfs) (struct_fields_nc b) = true -> nu (dec_header OP tm k b allfs buf)).
+
+Lemma queue_ok_nil allfs : queue_ok tm allfs [].
+Proof. constructor. Qed.
+
+Lemma dec_goal_all k : dec_goal k.
+Proof.
+  induction k as [|k [IHd [IHf IHh]]].
+  - repeat split; intros; cbn; nu_crash.
+  - assert (HR : R_des_ok (Rd k)).
+    { repeat split; cbn [Rd dec_t decf_t size_t key_t]; auto; intros t v; apply (enc_size_no_unsupported_all OP tm Hwf Hkey k t v). }
+    assert (Hh : forall b allfs buf, forallb (des_static_ok tm allfs) (struct_fields_nc b) = true -> nu (dec_header OP tm (S k) b allfs buf)).
+    { intros b allfs buf Hb. rewrite dec_header_S. cbv zeta.
+      apply nu_bind; [apply nu_deserialize_loop; [exact HR|exact Hb|apply queue_ok_nil]|]. intros; apply nu_ok. }
+    repeat split; [| |exact Hh].
+    + intros t buf. rewrite dec_S.
+      destruct (lookup tm t) as [[n [i|sz] c|n b0 vs at_ c|s]|] eqn:Hl; try nu_crash.
+      * cbv zeta. destruct (base_value_bad OP (it_size i) false _); nu_crash.
+      * apply nu_bind; [apply nu_get_bytes|intros; apply nu_ok].
+      * cbv zeta. destruct (enum_valid vs (is_bitwise at_) _); nu_crash.
+      * assert (Hin : In (DStruct s) tm).
+        { unfold lookup in Hl. exact (proj1 (find_some _ _ Hl)). }
+        pose proof (wf_layout_deserialize tm s Hwf Hin) as Hd. unfold layout_deserialize_ok in Hd. cbv zeta in Hd.
+        apply Bool.andb_true_iff in Hd as [Hown Hbase].
+        assert (Hown' : forallb (des_static_ok tm (struct_fields_nc s)) (own_fields tm s) = true).
+        { unfold own_fields. apply forallb_filter. exact Hown. }
+        destruct (s_disp s); try nu_crash; cbv zeta.
+        all: destruct (base_struct tm s) as [b|].
+        all: try (apply nu_bind; [apply nu_deserialize_loop; [exact HR|exact Hown'|apply queue_ok_nil]|intros; apply nu_ok]).
+        all: apply nu_bind; [apply IHh; exact Hbase|]; intros [[e0 ws] we] _;
+             apply nu_bind; [apply nu_deserialize_loop; [exact HR|exact Hown'|apply queue_ok_nil]|intros; apply nu_ok].
+    + intros t buf. cbn [decf].
+      destruct (lookup_struct tm t) as [a|] eqn:Hl; [|nu_crash].
+      pose proof (lookup_struct_in _ _ _ Hl) as Hin.
+      pose proof (wf_layout_deserialize tm a Hwf Hin) as Hd. unfold layout_deserialize_ok in Hd. cbv zeta in Hd.
+      apply Bool.andb_true_iff in Hd as [Hall _].
+      apply nu_bind; [apply IHh; exact Hall|]. intros [[e0 ws] we] _.
+      destruct (find_attr (s_attrs a) "discriminator"); [|nu_crash].
+      match goal with |- nu (match ?x with Some (DStruct c) => _ | _ => _ end) => destruct x as [[| |c]|] end; try nu_crash.
+      apply IHd.
+Qed.
+
+Theorem dec_no_unsupported_all fuel t b : nu (dec OP tm fuel t b) /\ nu (decf OP tm fuel t b).
+Proof. destruct (dec_goal_all fuel) as [Hd [Hf _]]. split; [apply Hd|apply Hf]. Qed.
+End Decode.
